@@ -5143,13 +5143,18 @@ bracket_addr_ok(const char *s, const char *eos)
 	}
 }
 
+/* Parse the authority [s..eos).  *endp is set to where the rest of the URI
+ * (path, query, fragment) starts: eos, except for a "unix:" authority, whose
+ * socket path may contain '/' and therefore extends past eos. */
 static int
-parse_authority(struct evhttp_uri *uri, char *s, char *eos, unsigned *flags)
+parse_authority(struct evhttp_uri *uri, char *s, char *eos, unsigned *flags,
+    char **endp)
 {
 	size_t len;
 	char *cp, *port;
 
 	EVUTIL_ASSERT(eos);
+	*endp = eos;
 	if (eos == s) {
 		uri->host = mm_strdup("");
 		if (uri->host == NULL) {
@@ -5181,6 +5186,11 @@ parse_authority(struct evhttp_uri *uri, char *s, char *eos, unsigned *flags)
 		if (e) {
 			*e = '\0';
 			uri->unixsocket = mm_strdup(cp + 5);
+			if (uri->unixsocket == NULL) {
+				event_warn("%s: strdup", __func__);
+				return -1;
+			}
+			*endp = e + 1;
 			return 0;
 		} else {
 			return -1;
@@ -5362,7 +5372,7 @@ evhttp_uri_parse_with_flags(const char *source_uri, unsigned flags)
 		readp += 2;
 		authority = readp;
 		path = end_of_authority(readp);
-		if (parse_authority(uri, authority, path, &uri->flags) < 0)
+		if (parse_authority(uri, authority, path, &uri->flags, &path) < 0)
 			goto err;
 		readp = path;
 		got_authority = 1;
@@ -5454,7 +5464,7 @@ evhttp_uri_parse_authority(char *source_uri, unsigned flags)
 	uri->flags = flags;
 
 	end = end_of_authority(source_uri);
-	if (parse_authority(uri, source_uri, end, &uri->flags) < 0)
+	if (parse_authority(uri, source_uri, end, &uri->flags, &end) < 0)
 		goto err;
 
 	uri->path = mm_strdup("");
